@@ -82,6 +82,14 @@ structure WF (b : Builder) : Prop where
   negSound : ∀ a n, b.negated[a]? = some n →
     a < b.counter ∧ n < b.counter ∧
     ∀ inp, inp.length + 2 = b.shift → b.sem inp n = !b.sem inp a
+  /-- no AND gate has a constant operand or the same wire twice -/
+  andNorm : ∀ (i x y : Nat), b.gates[i]? = some (BGate.and x y) → x ≠ y ∧ 2 ≤ x ∧ 2 ≤ y
+  /-- with de-duplication on, every AND gate is in the cache under its own operands … -/
+  cacheCover : b.cacheOn = true → ∀ (i x y : Nat), b.gates[i]? = some (BGate.and x y) →
+    (b.cache[BGate.and x y]?).isSome = true
+  /-- … and no two AND gates have the same unordered pair of operands -/
+  andUniq : b.cacheOn = true → ∀ (i j x y x' y' : Nat), b.gates[i]? = some (BGate.and x y) →
+    b.gates[j]? = some (BGate.and x' y') → ((x = x' ∧ y = y') ∨ (x = y' ∧ y = x')) → i = j
 
 theorem sem_zero (b : Builder) (inp : List Bool) : b.sem inp 0 = false := by
   simp only [sem, vals]
